@@ -109,3 +109,26 @@ Proof.
   split; [reflexivity|].
   destruct (Z_lt_le_dec (offs f p) (offs f q)) as [Hlt|Hge]; [left | right]; nia.
 Qed.
+
+(* ---- ... and together they cover the tensor: every element lies in the range of exactly one
+   partial index of each length (with the disjointness above: a partition) ---------------------- *)
+Lemma c_views_cover d k o :
+  Forall (fun x => 0 < x) d -> (k <= length d)%nat -> 0 <= o < size d ->
+  exists p, length p = k /\ validpb d p = true /\
+    let '(b, n) := view_vector d p in b <= o < b + n.
+Proof.
+  intros Hd Hk Ho.
+  destruct (offs_unoffset d o Hd Ho) as [Hv Hoff].
+  set (i := unoffset d o) in *.
+  pose proof (valid_length _ _ Hv) as HLi.
+  assert (HLp : length (firstn k i) = k) by (apply firstn_length_le; lia).
+  exists (firstn k i). split; [exact HLp|].
+  pose proof Hv as Hv'. rewrite <- (firstn_skipn k i) in Hv'.
+  destruct (valid_app_split _ _ _ Hv') as [Hp Hr]. rewrite HLp in Hr.
+  split; [apply validpb_spec; exact Hp|].
+  unfold view_vector, dims0. rewrite HLp.
+  rewrite offset0_offs by lia.
+  pose proof (offs_range _ _ Hr) as Hrange.
+  rewrite <- (firstn_skipn k i) in Hoff. rewrite offs_app in Hoff by lia. rewrite HLp in Hoff.
+  lia.
+Qed.
